@@ -162,3 +162,43 @@ def install(reg, src):
         if c.verifying and lk == rk == "VectorVariable":
             c.loop(1, lambda st: [], havoc={"result": list_of_entries(sp, e, vs)})
     row_contract(f"{VE}:DotProduct.jacobian_row", "DotProduct", cases={"left": VK, "right": VK}, setup=dot_setup)
+
+    # ---- LinearCombination: coefficient of the variable, via a dict built in a loop
+    from .vecspec import COEF, FPOWER
+    from .seqtheory import ELEMV as _ELEMV
+
+    def lc_setup(c, sp, e, vs):
+        vk = c.choose("vec", VK)
+        v = fix_vec(c, sp, e, vk) if vk else FV(sp, sp.ref(e))
+        if c.verifying and vk == "VectorVariable":
+            ip = c.ip
+            r = sp.ref(e)
+            sp.den(e, sp.E, sp.PVX)          # unfolds the constructor invariant len(coefficients) == len(vector)
+            S = ip.schema.read_field(ip, Opaque(v, "VectorVariable", exact=True), "_variables")
+            key_fn = lambda k: FN(_ELEMV(v, k))
+            val_fn = lambda k: SReal(z3.Select(COEF(r), k), "float")
+
+            def make_map(ip2, n_prefix):
+                return keyed_map(ip2, S, key_fn, val_fn, n=n_prefix, desc="var_to_coeff", require_distinct=True)
+
+            def written(ip2, key, value, i):
+                return [ip2.models.name_term(key) == key_fn(i), real_term(value) == z3.Select(COEF(r), i)]
+            c.loop(1, lambda st: [], havoc={"var_to_coeff": DictSpec(make_map, written)})
+    row_contract(f"{VE}:LinearCombination.jacobian_row", "LinearCombination", cases={"vec": VK}, setup=lc_setup)
+
+    # ---- VectorPowerSum: k * x[i] ** (k-1) with the shortcuts k == 1 and k == 2
+    def vps_setup(c, sp, e, vs):
+        fix_vec(c, sp, e, "VectorVariable")
+        if c.verifying:
+            c.loop(1, lambda st: [], havoc={"result": list_of_entries(sp, e, vs)})
+    row_contract(f"{VE}:VectorPowerSum.jacobian_row", "VectorPowerSum", setup=vps_setup)
+
+    # ---- VectorUnarySum: sin / cos shortcuts, None for the other functions
+    from pyvc.spec import VEC_UNARY_OPS
+
+    def vus_setup(c, sp, e, vs):
+        fix_vec(c, sp, e, "VectorVariable")
+        if c.verifying:
+            c.loop(1, lambda st: [], havoc={"result": list_of_entries(sp, e, vs)})
+    row_contract(f"{VE}:VectorUnarySum.jacobian_row", "VectorUnarySum", cases={"op": list(VEC_UNARY_OPS)}, setup=vus_setup,
+                 known=lambda c: ({"op": c.choose("op", list(VEC_UNARY_OPS))} if c.choose("op", list(VEC_UNARY_OPS)) else None))
